@@ -74,6 +74,9 @@ def build_file(seq, num, seed):
     recs, inst, stream = [], [], []
     aid, j = 0, 0
     rid, prev_rn = 0, None
+    # numbering class 'wrap': the ATOM numbers wrap too (a piece cut out of a box of >= 100 000 atoms): ..., 99999, 0, 1, ...
+    # the wrap falls after the 1st, 2nd or 3rd atom of the file (fixed per sequence), i.e. inside a residue or on a boundary
+    astart = 1 if num != 'wrap' else 99999 - (sum(SYMBOLS.index(x) for x in seq) % 3)
     for sym in seq:
         a0 = aid
         names, ids, pos, rids, rnames = [], [], [], [], []
@@ -87,9 +90,9 @@ def build_file(seq, num, seed):
             for an in anames:
                 p = (0.011 * (aid + 1) + 0.1 * seed, 1.0 + 0.007 * (aid + 1),
                      2.0 + 0.013 * ((aid * aid + seed) % 17))
-                recs.append((rid, rn, an, aid + 1, p))
+                recs.append((rid, rn, an, (astart + aid) % 100000, p))
                 names.append(an)
-                ids.append(aid + 1)
+                ids.append((astart + aid) % 100000)
                 pos.append(tuple(float(f'{x:8.3f}') for x in p))
                 aid += 1
         inst.append({'sp': sym, 'a0': a0, 'a1': aid, 'names': names, 'ids': ids, 'pos': pos,
@@ -146,7 +149,7 @@ class C11(Check):
                   'every case.')
     assumptions = ['residue kinds pairwise disjoint between species ("distinct residue signatures")',
                    'adjacent residues differ in residue number or in residue name (classes: sequential, alternating '
-                   '7/8, wrap ...99998,99999,0,1..., same number on adjacent residues of different names)',
+                   '7/8, wrap ...99998,99999,0,1... (residue AND atom numbers), same number on adjacent residues of different names)',
                    'coordinates: a deterministic table, unique per atom, shifted by VERIF_SEED']
 
     # ------------------------------------------------------------------
